@@ -239,6 +239,35 @@ pub fn payload_value(unique: u64, shape: u32) -> Value {
     }
 }
 
+/// A byte string serialized in several segments (only the 1.20 encoding can express that).
+struct SegBytes<'a>(&'a [Vec<u8>]);
+
+impl aldrin_core::tags::PrimaryTag for SegBytes<'_> {
+    type Tag = aldrin_core::tags::Bytes;
+}
+
+impl aldrin_core::Serialize<aldrin_core::tags::Bytes> for SegBytes<'_> {
+    fn serialize(self, serializer: aldrin_core::Serializer) -> Result<(), aldrin_core::SerializeError> {
+        let mut s = serializer.serialize_bytes2()?;
+        for seg in self.0 {
+            s.serialize(seg)?;
+        }
+        s.finish()
+    }
+}
+
+/// Payload whose value is a multi-segment byte string starting with the unique id.
+pub fn segmented_payload(version: ProtocolVersion, unique: u64, shape: u32) -> SerializedValue {
+    let segs: Vec<Vec<u8>> = match (shape / 10) % 3 {
+        0 => vec![unique.to_le_bytes().to_vec(), vec![1, 2, 3]],
+        1 => vec![unique.to_le_bytes()[..3].to_vec(), unique.to_le_bytes()[3..].to_vec(), vec![], vec![9; 70]],
+        _ => vec![vec![], unique.to_le_bytes().to_vec(), vec![0xff]],
+    };
+    let mut sv = SerializedValue::serialize(SegBytes(&segs)).expect("segmented bytes serialize");
+    sv.convert(None, version).expect("payload converts");
+    sv
+}
+
 /// Serializes in the epoch a peer of `version` produces.
 pub fn encode_for(version: ProtocolVersion, value: &Value) -> SerializedValue {
     let mut sv = SerializedValue::serialize(value).expect("payload serializes");
@@ -281,6 +310,9 @@ impl Resolver<'_> {
         };
         if self.allow_garbage && shape % 16 == 15 {
             return garbage_value(unique);
+        }
+        if shape % 9 == 8 {
+            return segmented_payload(self.version, unique, shape);
         }
         encode_for(self.version, &payload_value(unique, shape))
     }
